@@ -361,4 +361,57 @@ decreasing_by
     | exact (step_mu o S).2 _ _ h
     | assumption
 
+/-- the body of `loop` for a given outcome of `step` -/
+def loopStep {σ : Type} (o : Opts) (follow : Follow) (ev : Visit α → σ → EvalOut × σ)
+    (st : Step α) (acc : σ) (ret diags : Nat) : Res σ :=
+  match st with
+  | .done => ⟨acc, ret, false, diags⟩
+  | .cont S' => loop o follow ev S' acc ret diags
+  | .yield i S' =>
+    match toVisit follow i with
+    | none => loop o follow ev S' acc 1 (diags + 1)
+    | some v =>
+      let r := ev v acc
+      let ret' := if r.1.exit = 0 then ret else r.1.exit
+      if r.1.quit then ⟨r.2, ret', true, diags⟩
+      else if r.1.prune then loop o follow ev (skipCurrent S') r.2 ret' diags
+      else loop o follow ev S' r.2 ret' diags
+
+theorem loop_eq {σ : Type} (o : Opts) (follow : Follow) (ev : Visit α → σ → EvalOut × σ)
+    (S : MState α) (acc : σ) (ret diags : Nat) :
+    loop o follow ev S acc ret diags = loopStep o follow ev (step o S) acc ret diags := by
+  rw [loop]
+  unfold loopStep
+  split <;> simp_all
+
+/-! ### how `process_dir` configures and guards the walk -/
+
+/-- what the reference is parametrised by -/
+structure RefCfg where
+  depthFirst : Bool
+  minDepth : Nat
+  maxDepth : Nat
+  follow : Follow
+  deriving Repr
+
+def inRange (c : RefCfg) (d : Nat) : Bool := decide (c.minDepth ≤ d) && decide (d ≤ c.maxDepth)
+
+/-- `WalkDir::new(dir).contents_first(..).max_depth(..).min_depth(..).follow_links(..).follow_root_links(..)` -/
+def optsOf (c : RefCfg) : Opts :=
+  ({ contentsFirst := c.depthFirst, minDepth := c.minDepth, maxDepth := c.maxDepth,
+     followLinks := c.follow == .always, followRoot := c.follow != .never } : Opts).clamped
+
+/-- the evaluator as `process_dir` applies it: entries outside [mindepth, maxdepth] are not
+    evaluated, and a prune mark is acted upon only in pre-order -/
+def guardEv {σ : Type} (c : RefCfg) (ev : Visit α → σ → EvalOut × σ) : Visit α → σ → EvalOut × σ :=
+  fun v s =>
+    if inRange c v.ent.depth then
+      let r := ev v s
+      (if c.depthFirst then { r.1 with prune := false } else r.1, r.2)
+    else (⟨false, false, 0⟩, s)
+
+/-- `process_dir` for a starting point that exists -/
+def processRoot {σ : Type} (c : RefCfg) (ev : Visit α → σ → EvalOut × σ) (root : Node α) (acc : σ) : Res σ :=
+  loop (optsOf c) c.follow (guardEv c ev) (MState.init root) acc 0 0
+
 end FuModel.Find.Walk
